@@ -183,6 +183,7 @@ func c05Property(rt *rapid.T, ev *evid.Rec, reorgs bool) {
 	}
 	behind := false
 	notStarted := false
+	wiped := false
 	st := &c03State{floor: map[string]uint64{}, hasFloor: map[string]bool{}, maxEver: map[string]uint64{}, deletions: map[string]bool{}}
 	check := func(p *Pair, r StepResult) {
 		if r.Panic != nil {
@@ -260,6 +261,37 @@ func c05Property(rt *rapid.T, ev *evid.Rec, reorgs bool) {
 					}
 				}
 			}
+		case a == 3 && reorgs:
+			// the operator re-indexes a referenced integration: its positions and rows are removed
+			var refsPairs []*Pair
+			for _, p := range w.Pairs {
+				if !isDep(p) && p.Start > 0 && w.Cursor(p).OK {
+					refsPairs = append(refsPairs, p)
+				}
+			}
+			if len(refsPairs) == 0 {
+				p := m.pickPair("steppair")
+				check(p, m.step(p))
+				continue
+			}
+			rp := refsPairs[rapid.IntRange(0, len(refsPairs)-1).Draw(rt, "wiperef")]
+			if err := w.db.Exec(fakepgDelCursor, rp.Src.Name, rp.Decl.Name, bigZero()); err != nil {
+				rt.Fatalf("VERIF-INCONCLUSIVE wiping positions: %v", err)
+			}
+			if err := w.db.Exec(fmt.Sprintf("delete from %s where src_name = $1 and ig_name = $2 and block_num >= $3", rp.Decl.Table), rp.Src.Name, rp.Decl.Name, bigZero()); err != nil {
+				rt.Fatalf("VERIF-INCONCLUSIVE wiping rows: %v", err)
+			}
+			m.logf("operator wipes %s to re-index it", rp.Key())
+			m.label("ref-wiped")
+			wiped = true
+			// its dependants run before it has recorded anything again
+			for _, p := range w.Pairs {
+				if isDep(p) {
+					for k := rapid.IntRange(1, 3).Draw(rt, "depsteps"); k > 0; k-- {
+						check(p, m.step(p))
+					}
+				}
+			}
 		default:
 			p := m.pickPair("steppair")
 			check(p, m.step(p))
@@ -268,7 +300,7 @@ func c05Property(rt *rapid.T, ev *evid.Rec, reorgs bool) {
 	if reorgs {
 		// only the ordering invariant is claimed under reorgs: lookups made before
 		// a reorg may have matched rows of blocks that were orphaned later
-		ev.Case(behind, m.History(), "reorgs")
+		ev.Case(behind, m.History(), "reorgs", fmt.Sprintf("refWiped=%v", wiped))
 		return
 	}
 	for _, s := range w.Sources {
